@@ -382,7 +382,10 @@ def tracerProc (dec : Bytes) : PR := if dec = Http.sTracer then .resp ⟨200, .t
 def ribProc (d : Http.Deps) (w : World) (raw dec : Bytes) (ps : List Param) : PR :=
   match Http.ribProc Http.repaired d w.ribBase w.v4min w.v6min raw dec ps with
   | .none => .none
-  | .resp r => .resp ⟨r.status, if r.status = 200 then .json else .text, []⟩
+  | .resp r =>
+    -- the ingress-id query (raw path of exactly three segments) and `format=dump` answer in `text/plain`
+    .resp ⟨r.status, if r.status = 200 && !(Http.countByte 47 raw + 1 = 3) && (getParam Http.sFormat ps).isNone
+                     then .json else .text, []⟩
   | .panic _ => .panic .dep
 
 /-! ### The registry of the running manager and `Server::handle_request` -/
